@@ -434,6 +434,45 @@ def check(ctx):
             else:
                 o.witness((attr, s.ctx))
         o.sample({'field': attr, 'writers': sorted({s.ctx for s in sites})})
+    # ---- C02.11 the batch under construction is never overwritten ------------------------------------------
+    o = Ob('C02.11', 'K5', 'PartBatcher: the batch under construction is replaced only when there is none, and given up only by becoming the output '
+                           '(a fresh batch stored over one that holds parts drops those parts silently)')
+    obs.append(o)
+    if P.has_cls('PartBatcher'):
+        c = P.cls('PartBatcher')
+
+        def ipb_hook(an_, n, before, after):
+            a = n.ast
+            st = after
+            if n.kind == 'stmt' and isinstance(a, ast.Assign) and any(is_self_attr(t, '_in_progress_batch') for t in a.targets) and n.frame.func.name != '__init__':
+                old = before.fields.get('_in_progress_batch', TOP)
+                new = after.fields.get('_in_progress_batch', TOP)
+                if new != 'N' and old != 'N':
+                    st = st.with_flag('OVERWRITE')
+                elif new == 'N' and old == 'b0' and before.fields.get('_output') != 'b0':
+                    st = st.with_flag('GIVEN-UP')
+                else:
+                    st = st.with_flag('ok-store')
+            return st
+        dom = dv.base_domain(P, c)
+        dom['_in_progress_batch'] = ['N', 'b0']
+        dom['_block_input'] = ['F']
+        n_st = 0
+        for e, kind, g, s0, res in dv.explore_all(ctx, c, ['_part', '_output', '_is_shut_down', '_block_input', '_in_progress_batch'], dom, None, node_hooks=[ipb_hook]):
+            for st in res.exits():
+                o.count()
+                if 'ok-store' in st.flags:
+                    n_st += 1
+                    o.witness((e, s0.fields['_in_progress_batch']))
+                for fl, msg in (('OVERWRITE', 'a new batch is stored over the batch under construction: the parts collected so far are dropped without being reported'),
+                                ('GIVEN-UP', 'the batch under construction is discarded without having become the output: its parts are dropped without being reported')):
+                    if fl in st.flags:
+                        ln = dv.last_node(res, g.exit, st, lambda n: n.kind == 'stmt' and isinstance(n.ast, ast.Assign) and any(is_self_attr(t, '_in_progress_batch') for t in n.ast.targets))
+                        o.fail(P, f'PartBatcher.{e}', ln.ast if ln else '_in_progress_batch', msg + f' (entry {s0.show()})', node=ln, file=c.mod.path, path=res.path_lines(g.exit, st))
+        o.require(n_st >= 1, 'no store into the batch under construction was reached')
+
+    obs.append(ctx.shared('c03', 'C03.9', 'C02.10', 'conservation is shown per entry point under run-to-completion; that needs the handlers other devices call back into '
+                          'during a hand-over to move no part (a synchronous hand-over from a notification re-enters the sender while its slot is still full: parts are duplicated or dropped)'))
     return obs
 
 
